@@ -25,7 +25,8 @@ RULE = ("5 notification shapes (2.0 without id, 2.0 id null, 2.0 id '', 1.0 id n
         "too few arguments, keyword mismatch, keyword match) x position (alone, every position of batches <= 3 among answered calls, "
         "invalid entries and other notifications) x 8 dispatch kinds x pool (absent, 1..3 threads, started before / after the "
         "dispatch) x server version; every notification carries a unique tag in its params so that each invocation is attributed "
-        "to its entry. Non-trivial: every case (each has >= 1 notification). Distinct by case hash.")
+        "to its entry. Non-trivial: every case (each has >= 1 notification). Distinct by case hash."
+        ' Streams added after the seeded rounds: `chatty` (a peer that answers notifications: every envelope x result x id; path PNotify of Client.c06_check), `overlap` (a request held at a gate inside its method, or dispatching the other request itself, while another request is dispatched from start to end on the same dispatcher: 9 slow kinds x 6 fast kinds x 2 forms x 2 server versions; each of the two is one Dispatch.v case); batches also contain entries that are arrays of notifications.')
 TRUSTED = ["modelled, not verified: CPython argument binding (model: call_binds), the notification ThreadPool (only sampled under the OS scheduler)",
            "invocation logging wrappers around generated callables and the recording proxy in front of ThreadPool.enqueue"]
 ASSUMPTIONS = ["server Config.version in {1.0, 2.0}", "callables terminate"]
